@@ -641,7 +641,7 @@ func runC04(w *W) {
 	nsteps := 3 + t.Intn(22, "nsteps")
 	for s := 0; s < nsteps; s++ {
 		h := c.handles[t.Intn(len(c.handles), "step.handle")]
-		kind := t.Intn(12, "step.kind")
+		kind := t.Intn(13, "step.kind")
 		byName := h.typed && t.Chance(1, 2, "step.byname")
 		switch kind {
 		case 0, 1, 2: // set existing
@@ -727,6 +727,8 @@ func runC04(w *W) {
 			}
 		case 10: // SetMany on the root's direct children
 			c.setMany(h)
+		case 12: // the new value is a sub-node of the edited value itself (it aliases the buffer being rewritten)
+			c.setFromOwn(h)
 		default: // ReplaceByPath
 			if h.typed {
 				continue
@@ -992,3 +994,99 @@ func cmpRootUnordered(got, want *TVal) string {
 
 var _ = bytes.Equal
 var _ = simrt.PlaceHeap
+
+type pathVal struct {
+	path []pstep
+	v    *TVal
+}
+
+func collectPaths(v *TVal, prefix []pstep, out *[]pathVal) {
+	if v == nil || len(*out) > 96 {
+		return
+	}
+	add := func(s pstep, c *TVal) {
+		np := append(append([]pstep{}, prefix...), s)
+		*out = append(*out, pathVal{np, c})
+		collectPaths(c, np, out)
+	}
+	switch v.T.Kind {
+	case tSTRUCT:
+		for _, fv := range v.Fields {
+			if fv.F != nil && fv.V != nil {
+				add(pstep{Kind: 0, ID: fv.F.ID, Name: fv.F.Name}, fv.V)
+			}
+		}
+	case tLIST, tSET:
+		for i, e := range v.List {
+			add(pstep{Kind: 1, Idx: i}, e)
+		}
+	case tMAP:
+		for i, k := range v.Keys {
+			if k.T.Kind == tSTRING {
+				add(pstep{Kind: 2, SKey: string(k.S)}, v.Vals[i])
+			} else {
+				add(pstep{Kind: 3, IKey: k.I}, v.Vals[i])
+			}
+		}
+	}
+}
+
+func sameType(a, b *TType) bool {
+	if a.Kind != b.Kind {
+		return false
+	}
+	switch a.Kind {
+	case tSTRUCT:
+		return a.St == b.St
+	case tLIST, tSET:
+		return sameType(a.Elem, b.Elem)
+	case tMAP:
+		return sameType(a.Key, b.Key) && sameType(a.Elem, b.Elem)
+	case tSTRING:
+		return a.Binary == b.Binary
+	}
+	return true
+}
+
+// setFromOwn: handle.SetByPath(handle.GetByPath(B), A) - the source bytes live in the buffer that is being edited.
+func (c *c04) setFromOwn(h *c04Handle) {
+	w, t := c.w, c.w.T
+	var all []pathVal
+	collectPaths(h.model, nil, &all)
+	if len(all) < 2 {
+		return
+	}
+	a := all[t.Intn(len(all), "own.target")]
+	var cands []pathVal
+	for _, b := range all {
+		if sameType(a.v.T, b.v.T) && pathString(a.path) != pathString(b.path) {
+			cands = append(cands, b)
+		}
+	}
+	if len(cands) == 0 {
+		return
+	}
+	b := cands[t.Intn(len(cands), "own.source")]
+	w.NextOp(fmt.Sprintf("%s.SetByPath(own sub-node %s -> %s) typed=%v", h.name, pathString(b.path), pathString(a.path), h.typed))
+	var exist bool
+	var err error
+	if h.typed {
+		src := h.val.GetByPath(toLibPath(b.path, false)...)
+		if src.IsError() {
+			w.Failf("get-existing-failed", nil, "GetByPath of an existing element failed (path %s)", pathString(b.path))
+		}
+		exist, err = h.val.SetByPath(src, toLibPath(a.path, false)...)
+	} else {
+		src := h.node.GetByPath(toLibPath(b.path, false)...)
+		if src.IsError() {
+			w.Failf("get-existing-failed", nil, "GetByPath of an existing element failed (path %s)", pathString(b.path))
+		}
+		exist, err = h.node.SetByPath(src, toLibPath(a.path, false)...)
+	}
+	if err != nil || !exist {
+		w.Failf("set-existing-failed", nil, "SetByPath(own sub-node) on an existing element: exist=%v err=%v (%s -> %s)", exist, err, pathString(b.path), pathString(a.path))
+	}
+	modelSet(h.model, a.path, cloneVal(b.v))
+	w.Count("set_from_own_subnode")
+	c.verifyAll("set-own "+pathString(a.path), h, nil, 0)
+}
